@@ -8,3 +8,13 @@ func flagSet(name, value string) error {
 	}
 	return flag.Set(name, value)
 }
+
+func fuzzMode() bool {
+	if f := flag.Lookup("test.fuzz"); f != nil && f.Value.String() != "" {
+		return true
+	}
+	if f := flag.Lookup("test.fuzzworker"); f != nil && f.Value.String() == "true" {
+		return true
+	}
+	return false
+}
